@@ -383,4 +383,8 @@ BENIGN += [
             "    let n = writer.write(bytes)?;\n    writer.write_all(&bytes[n..])?;\n    Ok(())\n        //.expect(&format!(\"Problem writing UTF-8")]),
     dict(id="B27", props=["C03", "C04"], what="read_cpi_vector with an explicit Vec turbofish", edits=[
         (P, "            .map(ConstantPoolIndex::new)\n            .collect()", "            .map(ConstantPoolIndex::new)\n            .collect::<Vec<ConstantPoolIndex>>()")]),
+    dict(id="B28", props=["C08", "C04", "C06"], what="NamedSink flushes (and fails loudly) in Drop instead of the actions flushing explicitly", edits=[
+        (M, '        sink.flush()\n            .expect("Cannot write program to output.");\n', ''),
+        (M, '        sink.flush()\n            .expect("Cannot write to output");\n', ''),
+        (M, 'impl Write for NamedSink {', 'impl Drop for NamedSink {\n    fn drop(&mut self) {\n        self.sink.flush().expect("Cannot write to output");\n    }\n}\nimpl Write for NamedSink {')]),
 ]
